@@ -331,9 +331,16 @@ func (r *router) Routes(routePath, methods string, handlers ...Handler) *Route {
 		ms = append(ms, m)
 	}
 
-	var route *Route
+	// Collect leaves of all methods so the returned Route represents every one of
+	// them, e.g. for setting header matches.
+	route := &Route{
+		router: r,
+		leaves: make(map[string]route.Leaf, len(ms)),
+	}
 	for _, m := range ms {
-		route = r.Route(m, routePath, handlers)
+		for method, leaf := range r.Route(m, routePath, handlers).leaves {
+			route.leaves[method] = leaf
+		}
 	}
 	return route
 }
